@@ -28,16 +28,18 @@ def gen_case(rs, tier):
     if krng.random() < 0.2:
         from .c01 import gen_faults
         faults = [f for f in gen_faults(W.stream(rs, "faults")) if f["kind"] in ("peer.unknown", "fs.eio", "fs.enospc", "fs.vanish")]
-    return {"design": ast, "knobs": knobs, "tier": tier, "faults": faults,
+    case = {"design": ast, "knobs": knobs, "tier": tier, "faults": faults,
             "strategy": krng.choice(["IterateSATGen", "RandomGen", "IterateGen"]),
             "nclasses": krng.sample(NCLASS, 2)}
+    case["sweep"] = W.stream(rs, "sweep").random() < (0.15 if tier == "thorough" else 0.04)
+    return case
 
 
 def n_of(cls, total):
     return {"0": 0, "1": 1, "V-1": max(0, total - 1), "V": total, "V+1": total + 1, "3V": 3 * total}[cls]
 
 
-def run_case(case):
+def run_one(case):
     ast = case["design"]
     tier = case.get("tier", "quick")
     m = refsem.elaborate(ast)
@@ -98,6 +100,16 @@ def run_case(case):
             return base
         base["outcome"] = "ok"
         return base
+
+
+SWEEP_KINDS = ['fs.enospc', 'fs.eio', 'fs.vanish', 'peer.unknown']
+
+
+def run_case(case):
+    """A sweep case runs the workload fault-free and then once per (operation index x fault kind) placement."""
+    if case.get("sweep"):
+        return common.fault_sweep(run_one, case, SWEEP_KINDS, cap=160 if case.get("tier") == "thorough" else 60)
+    return run_one(case)
 
 
 def shrink_candidates(case):
